@@ -350,6 +350,40 @@ def expected_lean(t):
     return "\n".join(L) + "\n"
 
 
+def changed_rows():
+    """names of the table rows of the working tree that differ from the pinned tables of Scico/Proofs/AdjointTables.lean (parsed
+    textually: the rows are string literals) - used by the adapter's failing-input search to aim at the edited function"""
+    import re
+
+    pinned = (common.LEAN_DIR / "Scico" / "Proofs" / "AdjointTables.lean").read_text()
+
+    def block(name):
+        m = re.search(r"def " + name + r" :.*?:= \[(.*?)\]\n\n", pinned, re.S)
+        return m.group(1) if m else ""
+
+    t = extract()
+    out = []
+    pb = dict(re.findall(r'\("([^"]+)", (\d+), "([0-9a-f]+)"\)', block("expectedBodies")) and
+              [(q, (int(n), h)) for q, n, h in re.findall(r'\("([^"]+)", (\d+), "([0-9a-f]+)"\)', block("expectedBodies"))])
+    for q, n, h in t["bodies"]:
+        if pb.get(q) != (n, h):
+            out.append(q)
+    pc = block("expectedClosures")
+    for q, kws in t["closures"]:
+        row = "(" + _s(q) + ", [" + ", ".join(_s(x) for x in kws) + "])"
+        if row not in pc:
+            out.append(q)
+    po = block("expectedOverrides")
+    for row in t["overrides"]:
+        if "(" + ", ".join(_s(x) for x in row) + ")" not in po:
+            out.append("override:" + row[1])
+    pbr = block("expectedBranches")
+    for row in t["branches"]:
+        if "(" + ", ".join(_s(x) for x in row) + ")" not in pbr:
+            out.append("linear_adjoint:" + row[0])
+    return out
+
+
 if __name__ == "__main__":
     import sys
 
